@@ -269,7 +269,8 @@ def task_key(rule, sim, ti, upd, k):
         return -t["work"]
     if rule == 4:
         log = sim.h.tasks[ti].state_record_list[:k]
-        return -sum(1 for s in log if int(s) == S.READY)
+        # waiting time = READY entries of working steps (entries logged at project-wide absence steps do not count)
+        return -sum(1 for i, s in enumerate(log) if int(s) == S.READY and i not in sim.absn)
     if rule == 5:
         return -tt[T_REM]
     if rule == 6:
